@@ -13,6 +13,8 @@ func main() {
 	switch os.Args[1] {
 	case "dump":
 		cmdDump(os.Args[2:])
+	case "loops":
+		cmdLoops(os.Args[2:])
 	case "functions":
 		cmdFunctions(os.Args[2:])
 	case "mods":
